@@ -129,7 +129,7 @@ class Glushkov:
 
 def letters_for(names):
     pool = 'abcdefghijklmnopqrstuvwxyzABCDEFGHIJKLMNOPQRSTUVWXYZ'
-    return {n: pool[i] for i, n in enumerate(names)}
+    return {n: (pool[i] if i < len(pool) else chr(0x4E00 + i)) for i, n in enumerate(names)}
 
 def node_regex(node, letter):
     kind, body, occ = node
@@ -170,12 +170,17 @@ def term_of(node):
     if occ == '*': return _star(t)
     if occ == '+': return _seq(t, _star(t))
     return t
+_NULLABLE = {}
 def t_nullable(t):
     k = t[0]
     if k in ('eps', 'star'): return True
     if k in ('nul', 'sym'): return False
-    if k == 'cat': return t_nullable(t[1]) and t_nullable(t[2])
-    return any(t_nullable(x) for x in t[1])
+    r = _NULLABLE.get(t)
+    if r is None:
+        r = (t_nullable(t[1]) and t_nullable(t[2])) if k == 'cat' else any(t_nullable(x) for x in t[1])
+        if len(_NULLABLE) > 200000: _NULLABLE.clear()
+        _NULLABLE[t] = r
+    return r
 def t_deriv(t, a, memo):
     key = (t, a)
     if key in memo: return memo[key]
@@ -1210,3 +1215,117 @@ def exhaustive_doc(cm, alphabet, L, leaf_models, ch=None, loc='int'):
         rows.append((line, seq, ok, agree))
     lines.append('</r>')
     return '\n'.join(lines) + '\n', files, rows
+
+# ------------------------------------------------------------------------------------------------------------------
+# big models: 33..140 leaf positions.  Xerces keeps DFA states as bit sets of leaf positions (32 per word; more than 128 leaves switch
+# to a dynamically allocated representation) and picks between two follow-set union algorithms in DFAContentModel::buildDFA according
+# to how many positions of the current state lie in the words spanned by the occurrences of the input name: none of that code runs
+# for models with <= 32 leaves.  Families: long runs of optional/starred distinct names with one name repeated at both ends and in the
+# middle; choices of 40+ names; sequences/choices of small nested groups over few names (many occurrences per name in every word).
+# ------------------------------------------------------------------------------------------------------------------
+def count_leaves(node):
+    return 1 if node[0] == 'n' else sum(count_leaves(x) for x in node[1])
+
+def gen_big_cm(ch):
+    """-> (cm, names): a children model with 33..140 leaves and the element names it uses"""
+    fam = ch.int(0, 3)
+    target = ch.pick([33, 34, 40, 63, 64, 65, 66, 90, 96, 97, 127, 128, 129, 130, 140])
+    xs = ['x%d' % i for i in range(1, 141)]
+    rep = ch.pick(['a', 'b'])
+    if fam == 0:
+        # (a, x1?, ..., xk*, a?, ..., a, d)   repeated name at both ends and (sometimes) in the middle
+        k = target - 3
+        items = [('n', xs[i], ch.weighted([('?', 4), ('*', 2), ('', 0 if k > 20 else 1)])) for i in range(k)]
+        nmid = ch.int(0, 3)
+        for _ in range(nmid): items.insert(ch.int(1, len(items) - 1), ('n', rep, ch.pick(['?', '*', '?'])))
+        tail = [('n', rep, ch.pick(['', '', '+', '?'])), ('n', 'd', ch.pick(['', '?']))]
+        head = [('n', rep, ch.pick(['', '', '+']))]
+        node = ('s', head + items + tail, ch.pick(['', '', '*', '+']))
+    elif fam == 1:
+        # ((x1|x2|...|xk|a)*, a, (y1|...|a)?, d)   big choices
+        k = max(40, target - ch.int(2, 20))
+        alts = [('n', xs[i], '') for i in range(k)]
+        for _ in range(ch.int(0, 2)): alts.insert(ch.int(0, len(alts)), ('n', rep, ''))
+        rest = target - len(alts)
+        tail = [('n', rep, ch.pick(['', '?', '+']))]
+        if rest > 4: tail.append(('c', [('n', xs[k + i], '') for i in range(rest - 3)] + [('n', rep, '')], ch.pick(['?', '*', ''])))
+        tail.append(('n', 'd', ch.pick(['', '?'])))
+        node = ('s', [('c', alts, ch.pick(['*', '+', '?', '']))] + tail, ch.pick(['', '', '+']))
+    elif fam == 2:
+        # sequence of small nested groups over few names: every name occurs in every 32-bit word of the position set
+        small = ch.subset(['a', 'b', 'c', 'd', 'e'], 2, 4)
+        groups = []; n = 0
+        while n < target:
+            g = gen_cm_node(ch, small, ch.int(1, 2), True)
+            if g[2] == '' and ch.bool(): g = (g[0], g[1], ch.pick(['?', '*']))
+            groups.append(g); n += count_leaves(g)
+        node = ('s', groups, ch.pick(['', '', '*']))
+    else:
+        # choice of medium sequences mixing distinct and repeated names, nested once more
+        branches = []; n = 0; j = 0
+        while n < target:
+            ln = ch.int(5, 20); items = []
+            for _ in range(ln):
+                if ch.chance(1, 5): items.append(('n', rep, ch.pick(['', '?', '*'])))
+                else:
+                    items.append(('n', xs[j], ch.pick(['?', '?', '*', ''])))
+                    j += 1
+            items.append(('n', rep, ''))
+            branches.append(('s', items, ch.pick(['', '', '+']))); n += ln + 1
+        if len(branches) < 2: branches.append(('s', [('n', rep, ''), ('n', 'd', '')], ''))
+        node = ('s', [('c', branches, ch.pick(['', '+', '*'])), ('n', 'd', '?')], '')
+    return ('CH', node), cm_names(node)
+
+def walk_word(ch, node, skip=5):
+    """a member of the model's language; optional parts are mostly skipped so that the walk reaches the late positions"""
+    kind, body, occ = node
+    def once():
+        if kind == 'n': return [body]
+        if kind == 's':
+            out = []
+            for x in body: out += walk_word(ch, x, skip)
+            return out
+        return walk_word(ch, ch.pick(body), skip)
+    if occ == '': return once()
+    if occ == '?': return once() if ch.int(0, skip) == 0 else []
+    if occ == '*': k = ch.weighted([(0, skip), (1, 2), (2, 1)])
+    else: k = ch.weighted([(1, skip), (2, 2), (3, 1)])
+    out = []
+    for _ in range(k): out += once()
+    return out[:60]
+
+def min_word(node):
+    kind, body, occ = node
+    if occ in ('?', '*'): return []
+    if kind == 'n': return [body]
+    if kind == 's': return [y for x in body for y in min_word(x)]
+    return min((min_word(x) for x in body), key=len)
+
+def big_doc(ch, cm, names, nwords=24):
+    """-> (text, rows): one <E> per line: members found by walking the model (first the shortest one), and single-edit neighbours of them;
+    verdict of every row by the two membership witnesses"""
+    m = Membership(cm, ['r', 'E'] + list(names))
+    decl = ['<!ELEMENT r (E)*>', '<!ELEMENT E %s>' % render_cm(cm)] + ['<!ELEMENT %s EMPTY>' % n for n in names]
+    head = '<!DOCTYPE r [\n' + '\n'.join(decl) + '\n]>\n'
+    seqs = [min_word(cm[1])]
+    for i in range(nwords): seqs.append(walk_word(ch, cm[1], ch.pick([3, 5, 9])))
+    extra = []
+    for w in seqs:
+        for _ in range(2):
+            v = list(w); op = ch.int(0, 4)
+            if op == 0 and v: del v[ch.int(0, len(v) - 1)]
+            elif op == 1 and v: i = ch.int(0, len(v) - 1); v.insert(i, v[i])
+            elif op == 2 and len(v) > 1: i = ch.int(0, len(v) - 2); v[i], v[i + 1] = v[i + 1], v[i]
+            elif op == 3: v.insert(ch.int(0, len(v)), ch.pick(names))
+            elif v: v[ch.int(0, len(v) - 1)] = ch.pick(names)
+            extra.append(v)
+    lines = [head + '<r>']; line = head.count('\n') + 1; rows = []; seen = set()
+    for seq in seqs + extra:
+        if tuple(seq) in seen: continue
+        seen.add(tuple(seq))
+        line += 1
+        lines.append('<E>%s</E>' % ''.join('<%s/>' % n for n in seq))
+        ok, agree = m.accepts(seq)
+        rows.append((line, seq, ok, agree))
+    lines.append('</r>')
+    return '\n'.join(lines) + '\n', rows
